@@ -140,7 +140,8 @@ check("C08", "Three legs. (a) Compare.tla (class, type, RDATA, count) is model-c
       "NameChange events); (c) the combined trace is judged by TraceConflict: all announced, exactly one holds the original names, no shared name.",
       RESP_NOTE + " (d) ProbeMech.tla, a mechanism-level model of probing / tiebreak / back-off / rename / defence for 2-3 daemons on one link, is "
       "model-checked (no shared name, three probes before an announcement, one winner, everybody announced - liveness; without the tiebreak it must "
-      "fail) and its 810 start-time vectors are replayed on real daemons (family probecases).", RESP_TECH + "; TLC-enumerated cases replayed into the comparison code",
+      "fail) and its 810 start-time vectors are replayed on real daemons (family probecases); the names the daemons end up with must be one of the "
+      "outcomes the model can settle in for those start times (MCProbeOutcomes -> TraceConflict clause C08.outcome-model).", RESP_TECH + "; TLC-enumerated cases replayed into the comparison code",
       "DESIGN.md section 7 C08")
 
 check("C18", "Interfaces.tla states which addresses of the host's table a daemon uses (selections in call order, last match wins, evaluated over whatever "
